@@ -84,6 +84,10 @@ def main(argv=None):
         ctx.replaying = True
         with open(a.case_file) as f:
             rec = json.load(f)
+        if (rec.get("process") or {}).get("prelude_done"):
+            from rv.prelude import unrelated_history
+
+            unrelated_history(ctx)   # the violation was seen after the unrelated-history battery: re-create that first
         case = rec["case"] if "case" in rec and rec["case"] is not None else None
         if case is None:
             case = mod.gen(core.case_rng(rec["seed"], a.prop, rec["case_k"]), a.tier, rec["case_k"])
